@@ -1,20 +1,83 @@
 """
 C01 — eager evaluation returns the mathematical value of the expression.
 
-Correspondence: each generated expression is built twice through funsor's public API — under the
-default (eager) interpretation, giving the implementation's result, and under `reflect`, giving
-pure syntax which is serialised and sent to the Lean driver, whose `denote` (Model/Term.lean) is the
-textbook meaning.  Both are tabulated over the whole finite input space and compared exactly.
+Each generated expression ("recipe", fv/gen_terms.py) is built through funsor's public API
+
+  * under the default (eager) interpretation  -> the implementation's result (Tensor / Number / lazy / error),
+  * under `reflect`                            -> pure syntax, serialised (fv/ser.py) and sent to the Lean driver.
+
+The driver answers with (i) the textbook value `denote` (Model/Term.lean, + Model/C01Ext.lean for
+einsum/stack/cat ops) tabulated over the whole finite input space, and (ii) `peval`, the positional
+named-tensor model of eager evaluation (Model/C01.lean) about which Props/C01 proves `peval_sound` and
+`peval_total_core`.
+
+Gates (what the property states):
+  G1  whenever eager evaluation returns a ground value (after binding real inputs at sample points),
+      every cell equals `denote`                                               -> C01.eager-ne-denote
+  G2  the result has no input the expression does not have                     -> C01.result-has-foreign-input
+  G3  completeness: on the ground core fragment (`is_core`) eager evaluation returns a Tensor/Number;
+      a lazy result or an exception there is a violation                       -> C01.core-incomplete
+Echo of the theorems (a mismatch means the Lean side is inconsistent -> infrastructure error):
+  peval table = denote table whenever peval is defined; peval is defined whenever Lean `isCore`.
+Model fidelity (counted, NOT gated): ordered `.inputs` and raw `.data` layout of the eager result
+vs the NT model.
 """
 import itertools
+import contextlib
 from collections import OrderedDict
+from fractions import Fraction
 
 import numpy as np
 
-from ..common import sx
+from ..common import sx, parse_sx, atom_to_num
 from .. import futil, ser, gen_terms
-from ..futil import funsor, Tensor, Number
+from ..futil import funsor, Tensor, Number, Variable, Bint, Real, Reals, ops
 from funsor.interpretations import reflect
+from funsor.terms import Reduce, Funsor, to_funsor, Lambda, Independent
+
+DECLINE = (NotImplementedError, AssertionError, ValueError, TypeError, KeyError, IndexError, AttributeError)
+KF_LAMBDA = "KF-lambda-getslice-const-body"
+KF_MINMAX = "KF-minmax-mul-negative"
+
+
+# ---------------------------------------------------------------------------------------------
+# building
+# ---------------------------------------------------------------------------------------------
+
+def _tolerant_alpha_convert(self, alpha_subs):
+    # Reduce over a variable the argument does not mention cannot be *constructed* under `reflect`
+    # (Reduce._alpha_convert looks the bound variable's domain up in arg.inputs: KeyError).  Only for
+    # building the SYNTAX that is sent to Lean we take the domain from the reduced variable itself.
+    doms = {v.name: v.output for v in self.reduced_vars}
+    alpha_subs = {k: to_funsor(v, doms[k]) for k, v in alpha_subs.items()}
+    op, arg, reduced_vars = Funsor._alpha_convert(self, alpha_subs)
+    reduced_vars = frozenset(alpha_subs.get(var.name, var) for var in reduced_vars)
+    return op, arg, reduced_vars
+
+
+@contextlib.contextmanager
+def syntax_mode():
+    orig = Reduce._alpha_convert
+    Reduce._alpha_convert = _tolerant_alpha_convert
+    try:
+        with reflect:
+            yield
+    finally:
+        Reduce._alpha_convert = orig
+
+
+def syntax(recipe):
+    with syntax_mode():
+        return gen_terms.build(recipe)
+
+
+def evaluate(recipe):
+    """-> ("value", funsor) | ("declined", reason)"""
+    try:
+        r = gen_terms.build(recipe)
+    except DECLINE as e:
+        return ("declined", f"{type(e).__name__}: {str(e)[:80]}")
+    return ("value", r)
 
 
 def gen_ctx(rng):
@@ -26,132 +89,770 @@ def gen_ctx(rng):
     return ctx
 
 
-def run_case(ctx_, rng, depth):
-    ctx = gen_ctx(rng)
-    recipe, free = gen_terms.gen_expr(rng, ctx, depth, "real")
-    return ctx, recipe, free
+# ---------------------------------------------------------------------------------------------
+# recipe predicates
+# ---------------------------------------------------------------------------------------------
+
+def subrecipes(r):
+    yield r
+    for _, child, _ in gen_terms._children(r):
+        yield from subrecipes(child)
+    if r[0] == "subs":
+        pass
 
 
-def evaluate(recipe):
-    """-> ("value", funsor) | ("declined", reason)"""
+def tags_of(r):
+    return {x[0] for x in subrecipes(r)}
+
+
+CORE_BIN = {"add", "sub", "mul", "max", "min"}
+CORE_RED = {"add", "mul", "max", "min"}
+
+
+def core_kind(r):
+    """"T" / "N": `r` is in the documented ground core fragment and evaluates to a Tensor / Number;
+    None: outside.  Conservative on purpose (the completeness gate must never alarm on behaviour funsor
+    documents): tensors, numbers, pointwise + - * max min, neg/abs, reductions add/mul/max/min over
+    variables the argument has, substitution of numbers / variables / tensors, Stack of tensor-valued
+    parts (a Stack containing a Number stays a lazy Stack by design), Cat of tensors, Lambda + getitem by a
+    number / tensor.  Real scalar outputs."""
+    t = r[0]
+    if t == "tensor":
+        return "T" if r[2] == "real" and not r[3] else None
+    if t == "num":
+        return "N" if r[2] == "real" else None
+    if t == "binary":
+        if r[1] not in CORE_BIN:
+            return None
+        a, b = core_kind(r[2]), core_kind(r[3])
+        if a is None or b is None:
+            return None
+        return "T" if "T" in (a, b) else "N"
+    if t == "unary":
+        return core_kind(r[2]) if r[1] in ("neg", "abs") else None
+    if t == "reduce":
+        return "T" if r[1] in CORE_RED and not r[4] and core_kind(r[2]) == "T" else None
+    if t == "subs":
+        if not all(v[0] in ("num", "var", "tensor") for _, v in r[2]):
+            return None
+        return core_kind(r[1])
+    if t == "stack":
+        return "T" if all(core_kind(p) == "T" for p in r[2]) else None
+    if t == "cat":
+        return "T" if all(p[0] == "tensor" and core_kind(p) == "T" for p in r[2]) else None
+    if t == "lamget":
+        return core_kind(r[3]) if r[4][0] in ("num", "tensor") else None
+    return None
+
+
+def is_core(r):
+    return core_kind(r) is not None
+
+
+def lambda_getslice_region(r):
+    """Region of the open finding KF-lambda-getslice-const-body: a getslice applied directly to a Lambda
+    whose body does not mention the bound variable."""
+    for x in subrecipes(r):
+        if x[0] == "getslice" and x[2][0] == "lambda":
+            lam = x[2]
+            try:
+                body = syntax(lam[3])
+            except Exception:
+                return True
+            if lam[1] not in body.inputs:
+                return True
+    return False
+
+
+def _has_mul(r):
+    return any(x[0] == "binary" and x[1] == "mul" for x in subrecipes(r)) or \
+        any(x[0] in ("einsum", "independent") for x in subrecipes(r))
+
+
+def minmax_mul_region(r):
+    """Region of the open finding KF-minmax-mul-negative: a max/min reduction (over named inputs) of an
+    argument that contains a product and does not evaluate to a ground Tensor/Number (the product stays
+    lazy and cnf.py pushes max/min into the factors as if (max,mul)/(min,mul) were distributive)."""
+    for x in subrecipes(r):
+        if x[0] == "reduce" and x[1] in ("max", "min") and _has_mul(x[2]):
+            s, v = evaluate(x[2])
+            if s != "value" or not isinstance(v, (Tensor, Number)):
+                return True
+    return False
+
+
+def number_bool_region(r):
+    """`~`, `&`, `|`, `^` on a *Number* boolean are python-int bitwise ops (~False == -1): outside the
+    exact fragment (the spec's are logical); only numpy-bool Tensors are compared."""
+    for x in subrecipes(r):
+        if x[0] in ("not", "boolbin"):
+            for ch in (x[1:2] if x[0] == "not" else x[2:4]):
+                s, v = evaluate(ch)
+                if s == "value" and isinstance(v, Number):
+                    return True
+    return False
+
+
+def in_open_region(ctx, r):
+    t = tags_of(r)
+    if ("not" in t or "boolbin" in t) and number_bool_region(r):
+        ctx.count("skipped-beyond-model:bitwise-number-bool")
+        return True
+    if "getslice" in t and lambda_getslice_region(r):
+        ctx.count("skipped-open-finding-region:" + KF_LAMBDA)
+        return True
+    if "reduce" in t and minmax_mul_region(r):
+        ctx.count("skipped-open-finding-region:" + KF_MINMAX)
+        return True
+    return False
+
+
+# ---------------------------------------------------------------------------------------------
+# Python-side oracle (used by `search`, works without Lean): pointwise evaluation of a recipe
+# ---------------------------------------------------------------------------------------------
+
+NPBIN = {"add": np.add, "sub": np.subtract, "mul": np.multiply, "max": np.maximum, "min": np.minimum,
+         "eq": np.equal, "ne": np.not_equal, "lt": np.less, "le": np.less_equal, "gt": np.greater,
+         "ge": np.greater_equal, "and": np.logical_and, "or": np.logical_or, "xor": np.logical_xor}
+NPRED = {"sum": np.sum, "prod": np.prod, "amax": np.amax, "amin": np.amin, "all": np.all, "any": np.any}
+
+
+def _sizes_in(recipe, names):
+    syn = syntax(recipe)
+    return [int(syn.inputs[n].size) for n in names]
+
+
+def py_eval(r, env):
+    """Value (ndarray) of recipe `r` at the point `env` (name -> int | float | ndarray)."""
+    t = r[0]
+    if t == "tensor":
+        return np.asarray(r[4], dtype=float)[tuple(int(env[n]) for n, _ in r[1])]
+    if t == "num":
+        return np.asarray(float(r[1]))
+    if t in ("var", "rvar"):
+        return np.asarray(env[r[1]], dtype=float)
+    if t in ("binary", "cmp", "boolbin"):
+        return np.asarray(NPBIN[r[1]](py_eval(r[2], env), py_eval(r[3], env)), dtype=float)
+    if t == "unary":
+        a = py_eval(r[2], env)
+        return -a if r[1] == "neg" else np.abs(a)
+    if t == "not":
+        return 1.0 - py_eval(r[1], env)
+    if t == "reduce":
+        _, op, a, rv, absent = r
+        names = list(rv) + [n for n, _ in absent]
+        sizes = _sizes_in(a, rv) + [s for _, s in absent]
+        acc = None
+        for pt in itertools.product(*[range(s) for s in sizes]):
+            v = py_eval(a, {**env, **dict(zip(names, pt))})
+            acc = v if acc is None else np.asarray(NPBIN[op](acc, v), dtype=float)
+        return acc
+    if t == "subs":
+        bound = {}
+        for k, v in r[2]:
+            bound[k] = int(py_eval(v, env))
+        return py_eval(r[1], {**env, **bound})
+    if t == "slice":
+        return np.asarray(float(r[2] + r[4] * int(env[r[1]])))
+    if t == "stack":
+        return py_eval(r[2][int(env[r[1]])], env)
+    if t == "cat":
+        g = int(env[r[1]])
+        for p in r[2]:
+            size = _sizes_in(p, [r[1]])[0]
+            if g < size:
+                return py_eval(p, {**env, r[1]: g})
+            g -= size
+        raise IndexError
+    if t == "lamget":
+        _, name, size, body, idx = r
+        return py_eval(body, {**env, name: int(py_eval(idx, env))})
+    if t == "lambda":
+        return np.stack([py_eval(r[3], {**env, r[1]: i}) for i in range(r[2])])
+    if t == "opstack":
+        parts = [py_eval(p, env) for p in r[1]]
+        return np.stack(np.broadcast_arrays(*parts))
+    if t == "opcat":
+        return np.concatenate([py_eval(p, env) for p in r[1]], 0)
+    if t == "einsum":
+        return np.asarray(np.einsum(r[1], *[py_eval(p, env) for p in r[2]]), dtype=float)
+    if t == "red":
+        return np.asarray(NPRED[r[1]](py_eval(r[4], env), axis=r[2], keepdims=r[3]), dtype=float)
+    if t == "reshape":
+        return py_eval(r[2], env).reshape(tuple(r[1]))
+    if t == "getslice":
+        return py_eval(r[2], env)[gen_terms._index_of(r[1])]
+    if t == "getitem":
+        return py_eval(r[1], env)[int(py_eval(r[2], env))]
+    if t == "independent":
+        _, fn, rv, bv, dv = r
+        x = np.asarray(env[rv], dtype=float)
+        return sum(py_eval(fn, {**env, bv: i, dv: x[i]}) for i in range(x.shape[0]))
+    raise ValueError(t)
+
+
+def py_table(recipe, ins, env):
+    out = []
+    for p in itertools.product(*[range(s) for _, s in ins]):
+        v = np.asarray(py_eval(recipe, {**env, **{n: i for (n, _), i in zip(ins, p)}}), dtype=float)
+        out.append((list(v.shape), [futil.exact(x) for x in v.reshape(-1)]))
+    return out
+
+
+# ---------------------------------------------------------------------------------------------
+# one case
+# ---------------------------------------------------------------------------------------------
+
+class Case:
+    __slots__ = ("stream", "recipe", "env", "syn", "wire", "ins", "status", "val", "core")
+
+    def __init__(self, stream, recipe, env=None):
+        self.stream, self.recipe, self.env = stream, recipe, (env or {})
+
+
+def prepare(ctx, c):
+    """Build syntax + wire + eager value.  Returns False when the case is dropped (counted)."""
     try:
-        r = gen_terms.build(recipe)
-    except (NotImplementedError, AssertionError, ValueError, TypeError, KeyError, IndexError) as e:
-        return ("declined", f"{type(e).__name__}: {str(e)[:80]}")
-    return ("value", r)
+        c.syn = syntax(c.recipe)
+        c.wire = ser.to_wire(c.syn, ext=True)
+    except ser.Unsupported as e:
+        ctx.count(f"{c.stream}:beyond-model:{str(e)[:40]}")
+        return False
+    except DECLINE as e:
+        ctx.count(f"{c.stream}:ill-formed:{type(e).__name__}")
+        return False
+    c.ins = sorted((k, int(v.size)) for k, v in c.syn.inputs.items() if k not in c.env)
+    for k, v in c.syn.inputs.items():
+        if k not in c.env and (v.dtype == "real" or v.shape):
+            ctx.count(f"{c.stream}:beyond-model:unbound-real-input")
+            return False
+    c.core = is_core(c.recipe)
+    c.status, c.val = evaluate(c.recipe)
+    return True
 
 
-def syntax(recipe):
-    with reflect:
-        return gen_terms.build(recipe)
+def replay_python(recipe, env=None, expected=None, ins=None):
+    """Self-contained snippet: rebuilds the expression with funsor's public API, binds `env`, tabulates the
+    result over the sorted integer inputs `ins` and compares with the `expected` table (from Lean `denote`).
+    Sets FAILS."""
+    bind = ""
+    if env:
+        bind = "expr = expr(**{" + ", ".join(f"{k!r}: np.array({np.asarray(v).tolist()!r})" for k, v in env.items()) + "})\n"
+    head = gen_terms.PY_HEADER + f"expr = {gen_terms.python_of(recipe)}\n" + bind + "print(expr)\n"
+    if expected is None or ins is None:
+        return head + "FAILS = True   # (no expected table recorded: see 'expected'/'got' in this replay file)\n"
+    exp = [[float(x) for x in cell[1]] for cell in expected]
+    return head + f"""import itertools
+ins = {list(ins)!r}
+expected = {exp!r}
+got = []
+for p in itertools.product(*[range(s) for _, s in ins]):
+    g = expr(**{{n: i for (n, _), i in zip(ins, p) if n in expr.inputs}})
+    got.append(np.asarray(g.data, dtype=float).reshape(-1).tolist())
+print('expected', expected)
+print('got     ', got)
+FAILS = not (len(got) == len(expected) and all(len(a) == len(b) and np.allclose(a, b, equal_nan=True) for a, b in zip(got, expected)))
+""".replace("inf", "float('inf')").replace("nan", "float('nan')").replace("equal_float('nan')", "equal_nan")
 
 
-def disagrees(ctx, recipe):
-    """True iff eager value and Lean denote differ somewhere (used by the shrinker and by replay)."""
+def denote_table(ctx, recipe, env):
     try:
         syn = syntax(recipe)
-        wire = ser.to_wire(syn)
+        wire = ser.to_wire(syn, ext=True)
+    except Exception:
+        return None, None
+    ins = sorted((k, int(v.size)) for k, v in syn.inputs.items() if k not in (env or {}))
+    tab = ser.parse_table(ctx.driver.ask1(
+        f"C01 denote {sx(wire)} {sx(ser.ins_wire(ins))} {sx(ser.env_wire(env or {}))}"))
+    if tab is None or any(m is None for m in tab):
+        return None, ins
+    return tab, ins
+
+
+def bind_env(c):
+    """Bind the real-valued free inputs at the sample point (may raise: a decline)."""
+    f = c.val
+    if c.env:
+        f = f(**{k: v for k, v in c.env.items() if k in f.inputs})
+    return f
+
+
+def impl_table(c, bound=None):
+    return ser.impl_values(c.val if bound is None else bound, c.ins)
+
+
+def nt_of_answer(ans):
+    """`ok none` -> None ; `ok (nt ((n s)*) (shape*) (data*))` -> (inputs, shape, data list)"""
+    if not ans.startswith("ok"):
+        raise ValueError(ans)
+    body = ans[3:].strip()
+    if body == "none":
+        return None
+    t = parse_sx(body)
+    _, ins, shape, data = t
+    return ([(str(n), int(s)) for n, s in ins], [int(s) for s in shape], [atom_to_num(x) for x in data])
+
+
+def nt_table(nt, ins, env_unused=None):
+    inputs, shape, data = nt
+    arr = np.empty(len(data), dtype=object)
+    for i, x in enumerate(data):
+        arr[i] = x
+    arr = arr.reshape(tuple(s for _, s in inputs) + tuple(shape))
+    names = [n for n, _ in ins]
+    for n, _ in inputs:
+        if n not in names:
+            raise KeyError(n)
+    out = []
+    for p in itertools.product(*[range(s) for _, s in ins]):
+        pt = dict(zip(names, p))
+        cell = arr[tuple(pt[n] for n, _ in inputs)]
+        cell = np.asarray(cell, dtype=object).reshape(-1)
+        out.append((list(shape), list(cell)))
+    return out
+
+
+def disagrees(ctx, recipe, env=None):
+    """True iff the eager value and Lean `denote` differ somewhere (shrinker / replay)."""
+    c = Case("shrink", recipe, env)
+    try:
+        c.syn = syntax(recipe)
+        c.wire = ser.to_wire(c.syn, ext=True)
     except Exception:
         return False
-    ins = sorted((k, int(v.size)) for k, v in syn.inputs.items())
-    status, val = evaluate(recipe)
-    if status != "value":
+    c.ins = sorted((k, int(v.size)) for k, v in c.syn.inputs.items() if k not in c.env)
+    c.status, c.val = evaluate(recipe)
+    if c.status != "value":
         return False
-    if set(val.inputs) - set(n for n, _ in ins):
+    if set(c.val.inputs) - set(c.syn.inputs):
         return True
     try:
-        impl = ser.impl_values(val, ins)
+        bound = bind_env(c)
+    except DECLINE:
+        return False
+    try:
+        impl = impl_table(c, bound)
     except (KeyError, ValueError):
         return True
     if impl is None:
         return False
-    model = ser.parse_table(ctx.driver.ask1(f"C01 denote {sx(wire)} {sx(ser.ins_wire(ins))} ()"))
+    model = ser.parse_table(ctx.driver.ask1(
+        f"C01 denote {sx(c.wire)} {sx(ser.ins_wire(c.ins))} {sx(ser.env_wire(c.env))}"))
     if model is None or any(m is None for m in model):
         return False
     return not ser.tables_equal(impl, model)[0]
 
 
-def replay_python(recipe, ins):
-    return (gen_terms.PY_HEADER + f"expr = {gen_terms.python_of(recipe)}\nprint(expr)\n"
-            f"print(expr.inputs, getattr(expr, 'data', None))\nFAILS = True  # compare with the expected table in this replay file\n")
-
-
-def correspond(ctx):
-    rng = ctx.rng
-    n = 1500 if ctx.tier == "quick" else 40000
-    ctx.rule = ("random type-directed expressions (fv/gen_terms.py) of depth <= 4 over 1-4 named Bint inputs of sizes 1-4: "
-                "tensors, numbers, integer variables, binary/unary ops, reductions (incl. over variables the argument "
-                "does not mention), substitutions (numbers, renamings incl. collisions, index tensors, slices), Stack, Cat, "
-                "Lambda+getitem; each decided on its whole input space against Lean `denote`. Non-trivial = expression "
-                "with >= 3 constructors whose eager result is a Tensor depending on >= 1 input; distinct by full content.")
-    cases = []
-    for _ in range(n):
-        depth = rng.choice([1, 2, 2, 3, 3, 4])
-        c, recipe, free = run_case(ctx, rng, depth)
-        cases.append((c, recipe, free))
+def run_cases(ctx, cases):
+    """The pipeline shared by every stream: eager vs denote (gate), peval echo, fidelity, completeness."""
+    live = [c for c in cases if prepare(ctx, c)]
     reqs = []
-    meta = []
-    for c, recipe, free in cases:
-        try:
-            syn = syntax(recipe)
-            wire = ser.to_wire(syn)
-        except ser.Unsupported as e:
-            ctx.count(f"beyond-model:{e}")
-            continue
-        except (NotImplementedError, AssertionError, ValueError, TypeError, KeyError, IndexError) as e:
-            ctx.count(f"ill-formed:{type(e).__name__}")
-            continue
-        ins = sorted((k, int(v.size)) for k, v in syn.inputs.items())
-        if any(getattr(v, "shape", ()) for v in syn.inputs.values()):
-            ctx.count("beyond-model:array-input")
-            continue
-        status, val = evaluate(recipe)
-        meta.append((c, recipe, ins, syn, status, val))
-        reqs.append(f"C01 denote {sx(wire)} {sx(ser.ins_wire(ins))} ()")
+    for c in live:
+        reqs.append(f"C01 denote {sx(c.wire)} {sx(ser.ins_wire(c.ins))} {sx(ser.env_wire(c.env))}")
+        reqs.append(f"C01 peval {sx(c.wire)}")
+        reqs.append(f"C01 core {sx(c.wire)}")
     answers = ctx.driver.ask(reqs)
-    for (c, recipe, ins, syn, status, val), ans in zip(meta, answers):
-        ctx.count(f"root:{recipe[0]}")
-        model = ser.parse_table(ans)
+    for idx, c in enumerate(live):
+        a_den, a_pe, a_core = answers[3 * idx: 3 * idx + 3]
+        st = c.stream
+        ctx.count(f"{st}:root:{c.recipe[0]}")
+        model = ser.parse_table(a_den)
         if model is None:
-            ctx.infra_errors.append(f"driver: {ans} for {gen_terms.describe(recipe)}")
-            continue
-        if any(m is None for m in model):
-            ctx.count("spec-undefined")   # e.g. an operation outside the exact fragment
-            ctx.case()
-            continue
-        if status == "declined":
-            ctx.count(f"impl-declined:{val.split(':')[0]}")
-            ctx.case()
-            continue
-        extra = set(val.inputs) - set(n for n, _ in ins)
-        if extra:
-            ctx.fail("input", "C01.result-has-foreign-input", witness=gen_terms.describe(recipe),
-                     expected=f"inputs ⊆ {ins}", got=str(list(val.inputs)), python=replay_python(recipe, ins))
+            ctx.infra_errors.append(f"driver: {a_den[:200]} for {gen_terms.describe(c.recipe)}")
             continue
         try:
-            impl = ser.impl_values(val, ins)
+            nt = nt_of_answer(a_pe)
+        except Exception:
+            ctx.infra_errors.append(f"driver peval: {a_pe[:200]}")
+            continue
+        lean_core = a_core.strip() == "ok true"
+        spec_defined = not any(m is None for m in model)
+        # ---- echo of peval_total_core / peval_sound (Lean side self-consistency) ----------------
+        if lean_core:
+            ctx.count(f"{st}:lean-core")
+            if nt is None:
+                ctx.infra_errors.append(f"peval_total_core echo: isCore but peval = none: {gen_terms.describe(c.recipe)}")
+        if c.core:
+            ctx.count(f"{st}:py-core")
+            if not lean_core:
+                ctx.count(f"{st}:py-core-not-lean-core")
+        if nt is not None:
+            ctx.count(f"{st}:peval-defined")
+            if not c.env:
+                try:
+                    pt = nt_table(nt, c.ins)
+                    okp, _ = ser.tables_equal(pt, model) if spec_defined else (True, None)
+                except KeyError:
+                    okp = False
+                if not okp:
+                    ctx.infra_errors.append(f"peval_sound echo: peval table != denote table: {gen_terms.describe(c.recipe)}")
+        if not spec_defined:
+            ctx.count(f"{st}:spec-undefined")
+            ctx.case()
+            continue
+        # ---- G3 completeness -------------------------------------------------------------------
+        if c.core and (c.status != "value" or not isinstance(c.val, (Tensor, Number))):
+            got = c.val if c.status != "value" else f"lazy {type(c.val).__name__}"
+            small = gen_terms.shrink(c.recipe, lambda r: is_core(r) and _incomplete(r))
+            ctx.fail("input", "C01.core-incomplete", witness=gen_terms.describe(small),
+                     expected="a Tensor/Number (ground core fragment always completes)", got=str(got)[:300],
+                     python=replay_python(small))
+            continue
+        if c.status == "declined":
+            ctx.count(f"{st}:impl-declined:{c.val.split(':')[0]}")
+            ctx.case()
+            continue
+        val = c.val
+        extra = set(val.inputs) - set(c.syn.inputs)
+        if extra:
+            ctx.fail("input", "C01.result-has-foreign-input", witness=gen_terms.describe(c.recipe),
+                     expected=f"inputs ⊆ {list(c.syn.inputs)}", got=str(list(val.inputs)),
+                     python=replay_python(c.recipe, c.env))
+            continue
+        try:
+            bound = bind_env(c)
+        except DECLINE as e:
+            ctx.count(f"{st}:impl-declined-on-binding:{type(e).__name__}")
+            ctx.case()
+            continue
+        try:
+            impl = impl_table(c, bound)
         except (KeyError, ValueError) as e:
-            ctx.fail("input", "C01.result-inputs", witness=gen_terms.describe(recipe), got=str(e),
-                     expected=str(ins), python=replay_python(recipe, ins))
+            ctx.fail("input", "C01.result-inputs", witness=gen_terms.describe(c.recipe), got=str(e)[:300],
+                     expected=str(c.ins), python=replay_python(c.recipe, c.env))
             continue
         if impl is None:
-            ctx.count("impl-lazy")
+            ctx.count(f"{st}:impl-lazy")
             ctx.case()
             continue
         ok, bad = ser.tables_equal(impl, model)
         if not ok:
-            small = gen_terms.shrink(recipe, lambda r: disagrees(ctx, r))
-            if small is not recipe:
-                ctx.fail("input", "C01.eager-ne-denote", witness=gen_terms.describe(small),
-                         expected="Lean denote of the expression (see python to reproduce)",
-                         got="eager result differs", python=replay_python(small, None))
-                continue
-            ctx.fail("input", "C01.eager-ne-denote", witness=gen_terms.describe(recipe),
-                     expected=str(model[bad] if bad is not None and bad >= 0 else model)[:600],
-                     got=str(impl[bad] if bad is not None and bad >= 0 else impl)[:600],
-                     python=replay_python(recipe, ins))
+            small = gen_terms.shrink(c.recipe, lambda r: disagrees(ctx, r, c.env))
+            etab, eins = denote_table(ctx, small, c.env)
+            ctx.fail("input", "C01.eager-ne-denote", witness={"recipe": gen_terms.describe(small), "env": _env_json(c.env)},
+                     expected=f"Lean denote; first differing cell of the ORIGINAL case: "
+                              f"{str(model[bad] if bad is not None and bad >= 0 else model)[:300]}",
+                     got=str(impl[bad] if bad is not None and bad >= 0 else impl)[:300],
+                     python=replay_python(small, c.env, etab, eins))
             continue
-        nontrivial = gen_terms.recipe_size(recipe) >= 3 and isinstance(val, Tensor) and len(val.inputs) >= 1
-        ctx.case(sample={"expr": gen_terms.python_of(recipe)[:300], "inputs": ins},
-                 nontrivial_key=repr(gen_terms.describe(recipe)) if nontrivial else None)
+        # ---- model fidelity (counted, not gated) ---------------------------------------------------
+        if nt is not None and isinstance(val, Tensor) and not c.env:
+            ctx.count(f"{st}:fidelity:compared")
+            if [(k, int(v.size)) for k, v in val.inputs.items()] == nt[0]:
+                ctx.count(f"{st}:fidelity:inputs-order-equal")
+                flat = [futil.exact(x) for x in np.asarray(val.data).reshape(-1)]
+                if list(val.data.shape[len(val.inputs):]) == nt[1] and len(flat) == len(nt[2]) and all(
+                        futil.same_num(x, y) for x, y in zip(flat, nt[2])):
+                    ctx.count(f"{st}:fidelity:data-layout-equal")
+        nontrivial = gen_terms.recipe_size(c.recipe) >= 3 and isinstance(val, (Tensor,)) and (
+            len(val.inputs) >= 1 or len(val.data.shape) >= 1)
+        ctx.count(f"{st}:result:{type(c.val).__name__}")
+        ctx.case(sample={"stream": st, "expr": gen_terms.python_of(c.recipe)[:300], "inputs": c.ins},
+                 nontrivial_key=repr(gen_terms.describe(c.recipe)) if nontrivial else None)
+
+
+def _incomplete(r):
+    s, v = evaluate(r)
+    return s != "value" or not isinstance(v, (Tensor, Number))
+
+
+def _env_json(env):
+    return {k: np.asarray(v).tolist() for k, v in env.items()}
+
+
+# ---------------------------------------------------------------------------------------------
+# streams
+# ---------------------------------------------------------------------------------------------
+
+def stream_random(ctx, n):
+    rng = ctx.rng
+    cases = []
+    for _ in range(n):
+        depth = rng.choice([1, 2, 2, 3, 3, 4])
+        c = gen_ctx(rng)
+        recipe, _ = gen_terms.gen_expr(rng, c, depth, "real")
+        if in_open_region(ctx, recipe):
+            continue
+        cases.append(Case("rand", recipe))
+    return cases
+
+
+def stream_ext(ctx, n):
+    rng = ctx.rng
+    cases = []
+    skipped = 0
+    while len(cases) < n:
+        depth = rng.choice([1, 2, 2, 3, 3])
+        c = gen_ctx(rng)
+        kind = rng.choice(["real", "real", "real", "bool", ("array", (2,)), ("array", (3,)), ("array", (2, 3)),
+                           ("array", (1, 2)), ("array", (2, 1, 2))])
+        recipe, _ = gen_terms.gen_expr(rng, c, depth, kind, ext=True)
+        if in_open_region(ctx, recipe):   # region of an open finding: kept out of the clean stream
+            continue
+        cases.append(Case("ext", recipe))
+    return cases
+
+
+DYADIC = [-2.0, -1.25, -0.5, 0.0, 0.25, 0.5, 1.0, 1.5, 3.0]
+
+
+def stream_lazy(ctx, n):
+    """Expressions with real-valued free inputs (they stay lazy under eager), bound at dyadic points."""
+    rng = ctx.rng
+    cases = []
+    for _ in range(n):
+        c = gen_ctx(rng)
+        depth = rng.choice([1, 2, 2, 3])
+        if rng.random() < 0.2 and c:
+            # Independent(fn, "x", i, "x_i"): fn has the bint input i and the real input x_i
+            bv = rng.choice(list(c))
+            body, fb = gen_terms.gen_expr(rng, c, depth, "real", ext={"rvars": {"x_i": ()}})
+            dep = gen_terms.gen_tensor(rng, c, "real", names=[bv])
+            fn = ("binary", rng.choice(["add", "mul"]), ("binary", "mul", ("rvar", "x_i", ()), dep), body)
+            recipe = ("independent", fn, "x", bv, "x_i")
+            env = {"x": np.array([rng.choice(DYADIC) for _ in range(c[bv])])}
+            if not in_open_region(ctx, recipe):
+                cases.append(Case("lazy", recipe, env))
+            continue
+        rv = {"x": (), "y": ()}
+        if rng.random() < 0.3:
+            rv["v"] = (2,)
+        kind = rng.choice(["real", "real", "real", ("array", (2,))])
+        recipe, free = gen_terms.gen_expr(rng, c, depth, kind, ext={"rvars": rv})
+        env = {}
+        for k, sh in rv.items():
+            if k in free:
+                env[k] = np.array([rng.choice(DYADIC) for _ in range(int(np.prod(sh)) if sh else 1)]).reshape(sh) \
+                    if sh else rng.choice(DYADIC)
+        if in_open_region(ctx, recipe):
+            continue
+        cases.append(Case("lazy", recipe, env))
+    return cases
+
+
+# ---- exhaustive stratum ------------------------------------------------------------------------------
+
+EXH_CTX = OrderedDict([("i", 2), ("j", 2), ("k", 3)])
+
+
+def exh_leaves():
+    def T(ins, vals):
+        shape = tuple(EXH_CTX[n] for n in ins)
+        return ("tensor", tuple((n, EXH_CTX[n]) for n in ins), "real", (),
+                np.array(vals, dtype=np.float64).reshape(shape))
+    return [T(["i"], [1, -2]), T(["i", "j"], [1, 2, 3, -1]), T(["j", "i"], [0, 1, 2, 3]),
+            T(["k"], [2, 0, -1]), T(["j", "k"], [1, 2, 3, 4, 5, 6]), ("num", 2.0, "real")]
+
+
+def _ins_of(r):
+    if r[0] == "tensor":
+        return [n for n, _ in r[1]]
+    try:
+        return list(syntax(r).inputs)
+    except Exception:
+        return []
+
+
+def exh_apply1(args):
+    """All one-constructor expressions over the argument pool `args` (unary constructors) ."""
+    out = []
+    for a in args:
+        ins = _ins_of(a)
+        out.append(("unary", "neg", a))
+        for op in ("add", "max", "mul"):
+            for n in ins:
+                out.append(("reduce", op, a, (n,), ()))
+            if len(ins) > 1:
+                out.append(("reduce", op, a, tuple(ins), ()))
+            for z in EXH_CTX:
+                if z not in ins:
+                    out.append(("reduce", op, a, (), ((z, EXH_CTX[z]),)))
+                    if ins:
+                        out.append(("reduce", op, a, (ins[0],), ((z, EXH_CTX[z]),)))
+                    break
+        for n in ins:
+            size = EXH_CTX[n]
+            out.append(("subs", a, ((n, ("num", size - 1, size)),)))
+            for m, s in EXH_CTX.items():
+                if m != n and s == size:
+                    out.append(("subs", a, ((n, ("var", m, size)),)))
+            out.append(("lamget", n, size, a, ("num", 0, size)))
+            for m, s in EXH_CTX.items():
+                if s == size and m != n:
+                    out.append(("lamget", n, size, a, ("var", m, size)))
+        if len(ins) >= 2 and EXH_CTX[ins[0]] == EXH_CTX[ins[1]]:
+            out.append(("subs", a, ((ins[0], ("var", ins[1], EXH_CTX[ins[0]])), (ins[1], ("var", ins[0], EXH_CTX[ins[0]])))))
+    return out
+
+
+def exh_apply2(xs, ys):
+    out = []
+    for a in xs:
+        for b in ys:
+            for op in ("add", "mul", "max"):
+                out.append(("binary", op, a, b))
+    return out
+
+
+def stream_exhaustive(ctx):
+    L = exh_leaves()
+    d1 = exh_apply1(L) + exh_apply2(L, L)
+    for nm in ("i", "k"):
+        pool = [x for x in L if nm not in _ins_of(x)][:3]
+        for parts in itertools.product(pool, repeat=EXH_CTX[nm]):
+            d1.append(("stack", nm, tuple(parts)))
+    d2 = exh_apply1(d1) + exh_apply2(d1, L) + exh_apply2(L, d1)
+    ctx.count("exh:depth0", len(L))
+    ctx.count("exh:depth1", len(d1))
+    ctx.count("exh:depth2", len(d2))
+    return [Case("exh", r) for r in L + d1 + d2 if not in_open_region(ctx, r)]
+
+
+# ---- dedicated stream for the open finding -----------------------------------------------------------
+
+def stream_known(ctx):
+    """KF-lambda-getslice-const-body: x[a:b] on a lazy Lambda whose body ignores the bound variable
+    returns the body (the sliced axis disappears)."""
+    x = Lambda(Variable("w", Bint[4]), Number(-1.0))
+    try:
+        y = x[0:3]
+        reproduced = tuple(getattr(y, "output", Real).shape) != (3,)
+    except DECLINE:
+        reproduced = False
+    ctx.count("known:lambda-getslice:" + ("reproduced" if reproduced else "not-reproduced"))
+    if not ctx.known(KF_LAMBDA, reproduced, what="Lambda(w:Bint[4], Number(-1.0))[0:3] is the scalar -1.0, expected a 3-vector"):
+        if reproduced:
+            ctx.fail("input", "C01.lambda-getslice-const-body",
+                     witness=["getslice", [["s", 0, 3, 1]], ["lambda", "w", 4, ["num", -1.0, "real"]]],
+                     expected="Reals[3] array [-1,-1,-1]", got=f"{y!r} : {y.output}",
+                     python=gen_terms.PY_HEADER +
+                     "x = Lambda(Variable('w', Bint[4]), Number(-1.0))\ny = x[0:3]\nprint(repr(y), y.output)\n"
+                     "FAILS = tuple(y.output.shape) != (3,)\n")
+
+
+def stream_known_minmax(ctx):
+    """KF-minmax-mul-negative: min/max over a lazy product with a negative factor."""
+    from funsor.terms import Stack
+    s = Stack("k", (Number(-1.0), Number(2.0)))
+    t = Tensor(np.array([2.0, 1.0]), OrderedDict(j=Bint[2]))
+    try:
+        y = (s * t).reduce(ops.min, frozenset(["j", "k"]))
+        got = float(np.asarray(y.data)) if isinstance(y, (Tensor, Number)) else None
+        reproduced = got is not None and got != -2.0
+    except DECLINE:
+        got, reproduced = None, False
+    ctx.count("known:minmax-mul:" + ("reproduced" if reproduced else "not-reproduced"))
+    if not ctx.known(KF_MINMAX, reproduced, what="(Stack('k',(-1,2)) * Tensor([2,1],{j})).reduce(min,{j,k}) = -1, expected -2"):
+        if reproduced:
+            ctx.fail("input", "C01.minmax-mul-negative",
+                     witness=["reduce", "min", ["binary", "mul", ["stack", "k", [["num", -1.0], ["num", 2.0]]],
+                                                ["tensor", [["j", 2]], [2.0, 1.0]]], ["j", "k"]],
+                     expected="-2.0", got=str(got),
+                     python=gen_terms.PY_HEADER +
+                     "s = Stack('k', (Number(-1.0), Number(2.0)))\nt = Tensor(np.array([2.0, 1.0]), OrderedDict(j=Bint[2]))\n"
+                     "y = (s * t).reduce(ops.min, frozenset(['j', 'k']))\nprint(y)\nFAILS = float(y.data) != -2.0\n")
+
+
+# ---------------------------------------------------------------------------------------------
+# entry points
+# ---------------------------------------------------------------------------------------------
+
+def correspond(ctx):
+    quick = ctx.tier == "quick"
+    ctx.rule = (
+        "streams: rand = type-directed expressions (fv/gen_terms.gen_expr) of depth <= 4 over 1-4 named Bint inputs of "
+        "sizes 1-4 (tensors, numbers, binary/unary, reductions incl. absent variables, substitutions incl. renaming "
+        "collisions/index tensors/slices, Stack, Cat, Lambda+getitem); ext = extended kinds (array outputs: Lambda, "
+        "ops.stack/cat, einsum, output-axis reductions with axis/keepdims, reshape, getslice, broadcasting; comparisons "
+        "and boolean ops; getitem by number/variable/tensor); lazy = real-valued free inputs bound at dyadic points and "
+        "Independent; exh (thorough) = all expressions of depth <= 2 over {i:2,j:2,k:3} from a fixed pool of 6 leaves. "
+        "Every case is decided on its whole input space against Lean `denote`; peval (the NT model) is echoed against "
+        "denote; completeness is gated on the core fragment. Non-trivial = >= 3 constructors and a Tensor result with "
+        ">= 1 input or event dim; distinct by full content.")
+    n_rand, n_ext, n_lazy = (1500, 1200, 300) if quick else (30000, 30000, 6000)
+    run_cases(ctx, stream_random(ctx, n_rand))
+    run_cases(ctx, stream_ext(ctx, n_ext))
+    run_cases(ctx, stream_lazy(ctx, n_lazy))
+    if not quick:
+        run_cases(ctx, stream_exhaustive(ctx))
+        ctx.extra["exhaustive_stratum"] = "all depth<=2 expressions over the fixed pool enumerated"
+    stream_known(ctx)
+    stream_known_minmax(ctx)
+    # fidelity percentages
+    for st in ("rand", "ext", "exh"):
+        tot = ctx.distribution.get(f"{st}:fidelity:compared", 0)
+        if tot:
+            ctx.extra[f"fidelity_{st}"] = {
+                "compared": tot,
+                "inputs_order_equal_pct": round(100.0 * ctx.distribution.get(f"{st}:fidelity:inputs-order-equal", 0) / tot, 2),
+                "data_layout_equal_pct": round(100.0 * ctx.distribution.get(f"{st}:fidelity:data-layout-equal", 0) / tot, 2)}
     ctx.assumptions.append("transcendental ops (exp, log, sigmoid, …) are outside the exact fragment of Model/Term.lean")
+    ctx.assumptions.append("and/or/xor/invert are compared on boolean (0/1) data only: funsor's are bitwise, the spec's logical")
+    ctx.assumptions.append("syntax for Lean is built under `reflect` with Reduce._alpha_convert made tolerant of reduced "
+                           "variables absent from the argument (plain reflect raises KeyError there); eager runs unpatched")
+
+
+def search(ctx, broken):
+    """Hunt for a concrete failing input with the Python-side oracle `py_eval` (no Lean needed)."""
+    rng = ctx.rng
+    n = 15000 if ctx.tier == "quick" else 150000
+    found = 0
+    for t in range(n):
+        c = gen_ctx(rng)
+        depth = rng.choice([1, 2, 2, 3, 3])
+        if t % 2 == 0:
+            recipe, _ = gen_terms.gen_expr(rng, c, depth, "real")
+        else:
+            kind = rng.choice(["real", "real", "bool", ("array", (2,)), ("array", (2, 3))])
+            recipe, _ = gen_terms.gen_expr(rng, c, depth, kind, ext=True)
+        if in_open_region(ctx, recipe):
+            continue
+        if py_disagrees(recipe):
+            small = gen_terms.shrink(recipe, py_disagrees)
+            ctx.fail("input", "C01.eager-ne-oracle", witness=gen_terms.describe(small),
+                     expected="pointwise python oracle (fv/harness/c01.py: py_eval)", got="eager result differs",
+                     python=replay_python(small))
+            found += 1
+            if found >= 3:
+                return
+        if is_core(recipe) and _incomplete(recipe):
+            ctx.fail("input", "C01.core-incomplete", witness=gen_terms.describe(recipe),
+                     expected="Tensor/Number", got=str(evaluate(recipe)[1])[:200], python=replay_python(recipe))
+            found += 1
+            if found >= 3:
+                return
+
+
+def py_disagrees(recipe):
+    try:
+        syn = syntax(recipe)
+    except Exception:
+        return False
+    if any(v.dtype == "real" or v.shape for v in syn.inputs.values()):
+        return False
+    ins = sorted((k, int(v.size)) for k, v in syn.inputs.items())
+    s, val = evaluate(recipe)
+    if s != "value" or not isinstance(val, (Tensor, Number)):
+        return False
+    if set(val.inputs) - set(syn.inputs):
+        return True
+    try:
+        impl = ser.impl_values(val, ins)
+        want = py_table(recipe, ins, {})
+    except (KeyError,):
+        return True
+    except Exception:
+        return False
+    return not ser.tables_equal(impl, want)[0]
+
+
+def replay(ctx, doc):
+    py = doc.get("python")
+    if not py:
+        return True
+    g = {}
+    try:
+        exec(py, g)
+    except Exception:
+        return True
+    return bool(g.get("FAILS", False))
